@@ -225,7 +225,8 @@ def T1(inp, k, sends, reads, lmax=LQUICK):
     cl['all_delivered_after_drain'] = got == msgs
     cl['sender_buffer_empty_after_flush'] = bool(Eq(ca.getSendBufferSize(), 0)) if exc is None else True
     cl['receiver_buffer_empty_after_drain'] = bool(Eq(symlen(getattr(cb, '_TcpConnection__readBuffer')), 0)) if exc is None else True
-    cl['write_interest_dropped_when_flushed'] = True
+    subs = getattr(ca, '_TcpConnection__poller').subs
+    cl['write_interest_dropped_when_flushed'] = (7 in subs and (subs[7] & POLL_EVENT_TYPE.WRITE) == 0 and (subs[7] & POLL_EVENT_TYPE.READ) != 0) if exc is None else True
     return Res(cl, nontrivial=True, obs=lambda: dict(k=k, delivered_mid=delivered_mid, got=list(got), disc=len(disc), exc=show(exc),
                                                      wire_left=show(b.wire.slen())))
 
